@@ -128,6 +128,10 @@ func runCounterOffer(ctx *action.Context, tx action.RawTx) (bool, action.Respons
 	}
 	//6. amount needs to be large than active bid offer from bidder
 	offerCoin := counterOffer.Amount.ToCoin(ctx.Currencies)
+	defaultCurrency, ok := ctx.Currencies.GetCurrencyById(0)
+	if !ok || defaultCurrency.Name != counterOffer.Amount.Currency || !offerCoin.IsValid() {
+		return helpers.LogAndReturnFalse(ctx.Logger, action.ErrInvalidAmount, counterOffer.Tags(), errors.New("invalid offer amount"))
+	}
 	activeOfferCoin := activeOffer.Amount.ToCoin(ctx.Currencies)
 	if offerCoin.LessThanEqualCoin(activeOfferCoin) {
 		return helpers.LogAndReturnFalse(ctx.Logger, bid_data.ErrAmountLessThanActiveOffer, counterOffer.Tags(), err)
